@@ -262,7 +262,10 @@ func genPartitionChart(rng *rand.Rand, idx int) *pchart {
 				if !strings.HasSuffix(b.String(), "\n") {
 					b.WriteString("\n")
 				}
-				switch rng.Intn(6) {
+				switch rng.Intn(7) {
+				case 6:
+					b.WriteString(fmt.Sprintf("--- # separator comment %d\n", j))
+					sepsUsed["comment-after-marker"] = true
 				case 0:
 					b.WriteString("---   \n")
 					sepsUsed["trailing-space"] = true
@@ -435,6 +438,19 @@ func checkPartition(res *core.Result, pc *pchart, verbose bool) {
 		for _, id := range markers(h.Manifest) {
 			inHooks[id]++
 			hookOf[id] = h
+		}
+	}
+	// every generated document must be an entry of its own: a manifest chunk ("---\n# Source: ...")
+	// or hook manifest carrying two markers means two documents were not separated and the second
+	// one is sorted and classified under the head of the first
+	chunks := strings.Split("\n"+rel.Manifest, "\n---\n# Source: ")
+	for _, h := range rel.Hooks {
+		chunks = append(chunks, h.Manifest)
+	}
+	for _, ch := range chunks {
+		if ms := markers(ch); len(ms) > 1 {
+			res.Add("documents-merged", "two generated documents end up in one manifest entry", "entry %q holds markers %v | chart: %s", excerpt(ch), ms, witness())
+			break
 		}
 	}
 	byID := map[int]*doc{}
